@@ -469,7 +469,7 @@ def check_strict_graphs(ctx, U):
     sample = pairs if ctx.tier == "thorough" and ctx.shard == (0, 1) else rng.sample(pairs, min(len(pairs), 260 if ctx.tier == "quick" else 1500))
     for a, b in sample:
         exp = R(a, b)
-        for nested in (False, True, "renamed-nested-output", "swapped-nested-outputs", "non-first-producer", "with-ordering-edge"):
+        for nested in (False, True, "renamed-nested-output", "swapped-nested-outputs", "non-first-producer", "with-ordering-edge", "nested-first-of-two-producers", "nested-second-of-two-producers"):
             rt.reset_program()
             vname = "val2" if nested == "renamed-nested-output" else "val_b" if nested == "swapped-nested-outputs" else "val"
             prod = rt.make_function("prod", "t/prod", [{"n": "seed", "ann": int}], ret_ann=a)
@@ -515,6 +515,18 @@ def check_strict_graphs(ctx, U):
 
                     p0 = FunctionNode(rt.make_function("prod0", "t/prod0", [{"n": "seed", "ann": int}], ret_ann=b), name="prod0", output_name="val")
                     Graph([pick, p0, p, c], strict_types=True)
+                elif nested in ("nested-first-of-two-producers", "nested-second-of-two-producers"):
+                    # the two exclusive producers sit INSIDE a nested graph; the other one has exactly the consumer's
+                    # type, the one under test is listed first / second in the inner graph
+                    from hypergraph import ifelse
+
+                    @ifelse(when_true="prod0", when_false="prod")
+                    def pick(flag: bool) -> bool:
+                        return flag
+
+                    p0 = FunctionNode(rt.make_function("prod0", "t/prod0", [{"n": "seed", "ann": int}], ret_ann=b), name="prod0", output_name="val")
+                    inner = Graph([pick, p, p0] if nested == "nested-first-of-two-producers" else [pick, p0, p], name="inner_t", strict_types=True)
+                    Graph([inner.as_node(), c], strict_types=True)
                 elif nested:
                     inner = Graph([p], name="inner_t", strict_types=True)
                     Graph([inner.as_node(), c], strict_types=True)
